@@ -4,8 +4,7 @@ from .common import *
 BIN = ["checked_div", "checked_rem", "checked_div_euclid", "checked_rem_euclid",
        "overflowing_div", "overflowing_rem", "overflowing_div_euclid", "overflowing_rem_euclid",
        "wrapping_div", "wrapping_rem", "wrapping_div_euclid", "wrapping_rem_euclid", "saturating_div",
-       "div", "rem", "div_euclid", "rem_euclid", "checked_next_multiple_of",
-       "strict_div", "strict_rem", "strict_div_euclid", "strict_rem_euclid"]
+       "div", "rem", "div_euclid", "rem_euclid", "checked_next_multiple_of"]
 MODE = ["div_floor", "div_ceil", "next_multiple_of"]
 
 
